@@ -488,7 +488,7 @@ def r7_failed_write_ends_the_task(ctx):
     from .common import frontend_family
     hfm_, helpers_ = frontend_family(F)
     extra = "|".join(re.escape(h.path[:-len("::{closure#0}")]) + "$" for h in helpers_)
-    for b in [hfm_] + helpers_ + [F.one(r"^jsonrpsee_core::client::async_client::helpers::stop_subscription::\{closure#0\}$")]:
+    for b in [hfm_] + helpers_ + F.find(r"^jsonrpsee_core::client::async_client::helpers::stop_subscription::\{closure#0\}$"):
         R.fn(b)
         from .common import awaited_error_leaves_function
         for c in [x for x in b.calls if re.search(r"client::TransportSenderT::send$|async_client::helpers::stop_subscription$" + ("|" + extra if extra else ""), x.name() or x.callee or "") or re.search(r"client::TransportSenderT::send$", x.callee or "")]:
